@@ -215,8 +215,14 @@ CONFIG = ("hostname R1\n!\nip access-list extended A1\n 10 remark x\n 20 permit 
           "object-group network G\n host 10.0.0.1\n 10.0.0.0 255.255.255.0\ninterface Ethernet1\n ip address 1.1.1.1 255.0.0.0\n"
           " ip access-group A1 in\nrouter bgp 1\n address-family ipv4\n  network 10.0.0.0\nip access-list A2\n permit ip 10.0.0.0/8 any\n"
           "object-group ip address H\n 10 host 1.1.1.1\n")
+CONFIG2 = ("ip access-list extended EDGE\n permit ip object-group SRV any\n deny ip any any log\n"
+           "object-group network SRV\n host 10.0.0.1\n group-object DB\n 10.1.0.0 255.255.0.0\n"
+           "object-group network DB\n host 10.2.0.1\n"
+           "interface Serial0/0.1 point-to-point\n ip address 10.9.9.1 255.255.255.252\n ip access-group EDGE in\n"
+           "interface ATM1/0.100 multipoint\n ip access-group EDGE out\n"
+           "interface Vlan10\n description uplink to core\n ip access-group MISSING in\n")
 for _t in ("acls", "aces", "addrgroups"):
-    VALID[_t] = [CONFIG] + VALID["Acl"] + VALID["AddrGroup"]
+    VALID[_t] = [CONFIG, CONFIG2] + VALID["Acl"] + VALID["AddrGroup"]
 
 
 @st.composite
